@@ -453,6 +453,10 @@ func (r *runner) step(a string) {
 		}
 		time.Sleep(60 * time.Millisecond)
 	case "timer":
+		wait := 1500 * time.Millisecond
+		if r.killSent {
+			wait = 600 * time.Millisecond
+		}
 		ok := r.ag.waitFor(func(items []obsItem) bool {
 			for _, it := range items {
 				if it.Class == "status" && it.State == "TASK_RUNNING" {
@@ -460,9 +464,21 @@ func (r *runner) step(a string) {
 				}
 			}
 			return false
-		}, 1500*time.Millisecond)
-		if !ok {
+		}, wait)
+		if !ok && !r.killSent { // after KILL the timer is stopped: no TASK_RUNNING is the expected outcome
 			r.obs.Unrealised = append(r.obs.Unrealised, a)
+		}
+		if ok && r.killSent {
+			// TASK_RUNNING *before* the terminal status: on a loaded machine the timer fired before
+			// the executor got to handle the KILL, which is not the order this scenario is about
+			for _, st := range r.statuses() {
+				if st == "TASK_RUNNING" {
+					r.obs.Unrealised = append(r.obs.Unrealised, "the RUNNING timer fired before the KILL was handled")
+				}
+				if st == "TASK_RUNNING" || isTerminal(st) {
+					break
+				}
+			}
 		}
 	case "conf":
 		r.transition("conf", "STANDBY", "CONFIGURE", "CONFIGURED", 2*time.Second)
@@ -558,7 +574,12 @@ func (r *runner) step(a string) {
 			}
 			// the kill goroutine may still be escalating after the final status (it is not, in
 			// the unchanged code, but a changed one might): give the group time to disappear
+			// Kill sweeps the process group only when its escalation is over, which may be after
+			// the final status: wait for the group to disappear, at most the escalation's budget
 			deadline = time.Now().Add(1 * time.Second)
+			if d := r.killAt.Add(7 * time.Second); d.After(deadline) {
+				deadline = d
+			}
 			for time.Now().Before(deadline) && r.executorAlive() {
 				r.trackDeath()
 				if !r.deadAt.IsZero() {
